@@ -69,7 +69,8 @@ Init ==
     /\ prior = [t \in Threads |-> <<>>]
     /\ act = [a |-> "Init"]
 
-Observe(a) == act' = a @@ [srv |-> Srv']
+\* cur: which runtime object is current in every thread afterwards (0 = the thread's own implicit runtime)
+Observe(a) == act' = a @@ [srv |-> Srv', cur |-> [t \in Threads |-> Cur(t)']]
 
 \* Runtime({ty: handler ...}) built directly from explicit handlers
 Create(t, tys) ==
